@@ -46,6 +46,9 @@ CHECKS = {
  "C06": dict(cat="exploration", engine="A", technique=ENGINE_A + " on a virtual clock, discrete-event reference evaluated at observed event times",
    text="~5900 (thorough ~60000) single-task programs: all assignments of deadlines {past,0,1,2,4,inf}, sleep durations, scope kinds (CancelScope/move_on_after/fail_after), inner shield and deadline re-assignments for two (three) nested scopes; every choice of letting the clock reach the next timer while the loop is busy; oracle: must/may-fired reference for every sleep/checkpoint outcome, cancel_called and cancelled_caught at exit, TimeoutError of fail_after, current_effective_deadline() probes, no firing after exit, no live timer at the end.",
    note="Trusted: virtual clock model (time moves only at idle or at explorer-chosen batch boundaries); deadline == wake-up ties accepted either way."),
+ "C16": dict(cat="model_checking", engine="C", technique="explicit-state BFS to closure over (buffer, remaining source chunks) states of the real BufferedByteReceiveStream rebuilt through its public API, relational reference oracle on every transition; bounded-exhaustive enumeration for the text streams",
+   text="Initial states: every byte string over {a,b} up to length 5 (thorough 7) under every chunking, for a byte stream honouring max_bytes and an object stream of bytes; transitions receive(n), receive_exactly(n), receive_until(delim,max), feed_data(x) for small n/delimiters/max, BFS to closure, each transition executed on a fresh real object and checked against the relation on buffer+source (prefix, 1..n bytes, exactly n or IncompleteRead, delimiter rules, failed calls consume nothing); path-independence of op sequences on one live object; text: all strings of <=3-4 code points over {a, e-acute, euro, emoji} x 5 encodings x every split (short encodings) / every 2- and 3-way split (long ones), and TextSendStream->TextReceiveStream identity for every cut of the string.",
+   note="Trusted: the in-memory source streams written for the check (never suspend, never deliver empty chunks); random longer inputs are not sampled (different family)."),
 }
 
 def main():
